@@ -10,7 +10,7 @@ import numpy as np
 SUBJECT_NAMES = [
     "Network", "Network[directed]", "InteractingNetworks", "GeoNetwork",
     "ClimateNetwork", "TsonisClimateNetwork", "SpearmanClimateNetwork",
-    "RecurrencePlot", "RecurrenceNetwork", "JointRecurrencePlot",
+    "MutualInfoClimateNetwork", "HavlinClimateNetwork", "RecurrencePlot", "RecurrenceNetwork", "JointRecurrencePlot",
     "JointRecurrenceNetwork", "CrossRecurrencePlot",
     "InterSystemRecurrenceNetwork", "ResNetwork", "ClimateData",
     "Surrogates"]
